@@ -1,93 +1,129 @@
-//! suite `access` (C13): access histories over the real `serde_arrow::Deserializer`
-//! (len / is_empty / get / iter / next / size_hint / bulk reads), on hand-assembled marrow views
-//! whose logical rows the generator knows.
+//! suite `access` (C13): access histories over the real `serde_arrow::Deserializer` — len / is_empty / get / iter / next /
+//! nth / count / last / size_hint / bulk reads — on batches of 0-3 columns from the nested generator of the read suite
+//! (lgen.rs: every array kind, nested), materialised as hand-made wire views with every layout freedom (wiregen.rs: bit
+//! offsets, non-zero first offsets, garbage under nulls), as arrow-rs arrays or as arrow2 arrays (arrowsrc.rs; optionally
+//! SLICED), and handed to `Deserializer::from_marrow`, `from_arrow`, `from_record_batch` or `from_arrow2`.  Every item an
+//! operation yields is deserialized into a typed target of the operation's own (dynde.rs), so one record is read several
+//! times, through several access paths, in several orders, with several targets.
+//!
+//! input : {"id","seed","via":"marrow"|"arrow"|"record_batch"|"arrow2" (the constructor),"nfields":n,
+//!          "cols":[{"field":FieldJson,"rows":[LVal…],"src":"wire"|"arrow"|"arrow2","view":wire view (src wire),
+//!                   "slice":[o,l] (src arrow / arrow2)}…],
+//!          "ops":[{"op":…,"ty":target}…]}
+//! output: input + "views" (the marrow view of every column, wire form: what the driver's model reads), "ctor" (outcome
+//!         of the constructor: {"ok":len}), "impl" (one output per operation), or "skip" (a column could not be built /
+//!         converted: a harness limitation, never expected).
+//!
+//! Outputs: {"n":k} | {"b":bool} | {"unit":true} | {"no_such_iter":true} | {"hint":[lo,hi]} | {"item":null} |
+//! {"item":outcome} | {"items":outcome of the sequence read} | {"each":[outcome…]} | {"panic":msg} (ends the history).
 //!
 //! API coverage (notes/api_coverage.md): `iter_last` (provided `Iterator::last`), `collect_rev` (all items of a fresh
 //! iterator collected first and deserialized afterwards in REVERSE order: a `DeserializerItem` is a stand-alone handle),
 //! and `top` — the `Deserializer` itself driven through every `serde::Deserializer` method: `seq`, `tuple`,
 //! `tuple_struct`, `any`, `newtype` (documented to give the sequence of records), `ignored`, and the methods that must
-//! refuse with an error (all 25: the integers and floats, `bool`, `char`, `str`, `string`, `bytes`, `byte_buf`, `option`,
-//! `unit`, `unit_struct`, `map`, `struct`, `enum`, `identifier`).
+//! refuse with an error (all 25).  `count` / `last` are called BY VALUE (an override would run), the slot is refilled
+//! with an exhausted iterator.
+use crate::arrowsrc;
+use crate::dump::{view_to_json, Owned};
+use crate::dynde::Target;
+use crate::lgen;
 use crate::outcome;
 use crate::rng::Rng;
+use crate::schema_dump::field_from_json;
+use crate::wiregen;
 use crate::Ctx;
-use marrow::array::{Array, BooleanArray, BytesArray, PrimitiveArray};
-use marrow::datatypes::{DataType, Field};
+use marrow::view::View;
+use serde::de::DeserializeSeed;
 use serde::Deserialize;
-use serde_json::{json, Map, Value};
+use serde_json::{json, Value};
+use std::panic::{catch_unwind, AssertUnwindSafe};
+use std::sync::Arc;
 
-fn pack_bits(bits: &[bool]) -> Vec<u8> {
-    let mut out = vec![0u8; (bits.len() + 7) / 8];
-    for (i, b) in bits.iter().enumerate() {
-        if *b {
-            out[i / 8] |= 1 << (i % 8);
-        }
-    }
-    out
-}
+// ------------------------------------------------------------------------------------------------ gen
 
-fn gen_col(rng: &mut Rng, idx: usize, len: usize) -> Value {
-    let ty = *rng.pick(&["Int32", "Int64", "Utf8", "Boolean"]);
-    let nullable = rng.bool();
-    let mut values = Vec::new();
-    for _ in 0..len {
-        if nullable && rng.chance(1, 4) {
-            values.push(Value::Null);
-            continue;
-        }
-        values.push(match ty {
-            "Int32" => json!(rng.range(i32::MIN as i64, i32::MAX as i64)),
-            "Int64" => json!(rng.range(-1_000_000_000_000, 1_000_000_000_000)),
-            "Utf8" => {
-                let n = rng.usize(5);
-                let s: String = (0..n).map(|_| *rng.pick(&['a', 'b', 'ß', '0', ' ', '"'])).collect();
-                json!(s)
+/// record targets for a batch: the natural ones, other shapes per column, shapes that fail on some rows
+fn target_pool(r: &mut Rng, fields: &[Value]) -> Vec<Value> {
+    let nat: Vec<Value> = fields.iter().map(wiregen::natural_target).collect();
+    let names: Vec<Value> = fields.iter().map(|f| f["name"].clone()).collect();
+    let named = |tys: &[Value]| -> Vec<Value> { names.iter().zip(tys).map(|(n, t)| json!([n, t])).collect() };
+    let mut pool = vec![json!("any"), json!({"struct": named(&nat)}), json!({"tuple": nat.clone()})];
+    // another shape for every column (widths, borrowed strings, tuple views of structs, …)
+    let var: Vec<Value> = fields
+        .iter()
+        .zip(&nat)
+        .map(|(f, n)| {
+            let vs = wiregen::variant_targets(r, f);
+            let v = r.pick(&vs).clone();
+            if r.chance(1, 3) && n.get("option").is_some() {
+                json!({ "option": v })
+            } else {
+                v
             }
-            _ => json!(rng.bool()),
-        });
+        })
+        .collect();
+    pool.push(if r.bool() { json!({"struct": named(&var)}) } else { json!({"tuple": var}) });
+    // without the outer Option layer: rows with a null fail
+    let strict: Vec<Value> = nat.iter().map(wiregen::strip_option).collect();
+    pool.push(if r.bool() { json!({"tuple_struct": strict}) } else { json!({"newtype": {"struct": named(&strict)}}) });
+    // reordered, one column dropped, an optional extra
+    let mut some = named(&nat);
+    some.reverse();
+    if some.len() > 1 && r.bool() {
+        some.remove(0);
     }
-    json!({"name": format!("c{idx}"), "ty": ty, "nullable": nullable, "values": values})
+    some.push(json!(["zz_opt", {"option": "i32"}]));
+    pool.push(json!({ "struct": some }));
+    pool.push(json!({"map": ["string", "any"]}));
+    pool.push(json!({"map": ["any", "ignored"]}));
+    pool.push(json!("ignored"));
+    pool.push(json!({"seq": "any"}));
+    pool
 }
 
-fn gen_ops(rng: &mut Rng, len: usize, n: usize) -> Vec<Value> {
+fn gen_ops(r: &mut Rng, len: usize, n: usize, pool: &[Value]) -> Vec<Value> {
     let mut ops = Vec::new();
     let mut iters = 0usize;
+    // one record is read again and again (with whatever target the operation draws)
+    let hot = if len > 0 { r.usize(len) } else { 0 };
     for _ in 0..n {
-        let k = rng.below(100);
-        let op = if k < 5 {
+        let k = r.below(100);
+        let ty = if r.chance(1, 4) { pool[0].clone() } else { r.pick(pool).clone() };
+        let op = if k < 4 {
             json!({"op": "len"})
-        } else if k < 8 {
+        } else if k < 6 {
             json!({"op": "is_empty"})
         } else if k < 38 {
             // indices around the boundary as well as inside
-            let i = match rng.below(6) {
+            let i = match r.below(14) {
                 0 => len,
                 1 => len + 1,
                 2 => len.saturating_sub(1),
-                3 => len + rng.usize(1000),
-                _ => rng.usize(len + 1),
+                3 => len + r.usize(1000),
+                4..=7 => hot,
+                _ => r.usize(len.max(1)),
             };
-            json!({"op": "get", "i": i})
-        } else if k < 48 || iters == 0 {
+            json!({"op": "get", "i": i, "ty": ty})
+        } else if k < 46 || iters == 0 {
             iters += 1;
             json!({"op": "iter_new"})
         } else if k < 70 {
-            json!({"op": "iter_next", "k": rng.usize(iters)})
-        } else if k < 76 {
+            json!({"op": "iter_next", "k": r.usize(iters), "ty": ty})
+        } else if k < 78 {
             // provided Iterator methods (defined through `next` unless overridden): nth around the remaining count
-            let n = match rng.below(4) {
+            let n = match r.below(5) {
                 0 => 0,
                 1 => len,
-                2 => len + 1 + rng.usize(3),
-                _ => rng.usize(len + 1),
+                2 => len + 1 + r.usize(3),
+                3 => hot,
+                _ => r.usize(len + 1),
             };
-            json!({"op": "iter_nth", "k": rng.usize(iters), "n": n})
-        } else if k < 78 {
-            json!({"op": "iter_count", "k": rng.usize(iters)})
-        } else if k < 94 {
-            json!({"op": "iter_hint", "k": rng.usize(iters)})
+            json!({"op": "iter_nth", "k": r.usize(iters), "n": n, "ty": ty})
+        } else if k < 80 {
+            json!({"op": "iter_count", "k": r.usize(iters)})
+        } else if k < 92 {
+            json!({"op": "iter_hint", "k": r.usize(iters)})
         } else {
-            json!({"op": "bulk"})
+            json!({"op": "bulk", "ty": ty})
         };
         ops.push(op);
     }
@@ -101,13 +137,14 @@ const TOP_REFUSED: [&str; 25] = [
 ];
 
 /// API coverage: a few more requests per case, drawn from a stream of their own and inserted at random positions
-fn gen_api_ops(x: &mut Rng, ops: &mut Vec<Value>) {
+fn gen_api_ops(x: &mut Rng, ops: &mut Vec<Value>, pool: &[Value]) {
     let iters = ops.iter().filter(|o| o["op"] == "iter_new").count();
     let n = 1 + x.usize(3);
     for _ in 0..n {
+        let ty = x.pick(pool).clone();
         let op = match x.below(8) {
-            0 | 1 if iters > 0 => json!({"op": "iter_last", "k": x.usize(iters)}),
-            2 | 3 => json!({"op": "collect_rev"}),
+            0 | 1 if iters > 0 => json!({"op": "iter_last", "k": x.usize(iters), "ty": ty}),
+            2 | 3 => json!({"op": "collect_rev", "ty": ty}),
             4 | 5 => json!({"op": "top", "how": *x.pick(&TOP_SEQ)}),
             6 => json!({"op": "top", "how": "ignored"}),
             _ => json!({"op": "top", "how": *x.pick(&TOP_REFUSED)}),
@@ -119,85 +156,194 @@ fn gen_api_ops(x: &mut Rng, ops: &mut Vec<Value>) {
     }
 }
 
+fn gen_field(r: &mut Rng, name: &str, ctor: &str, leafs: &[Value], thorough: bool) -> Value {
+    for _ in 0..50 {
+        let mut f = if r.chance(1, 3) {
+            let dt = r.pick(leafs).clone();
+            let nullable = lgen::nullable_for(r, &dt);
+            lgen::mk_field(name, nullable, dt)
+        } else {
+            let depth = 1 + r.usize(if thorough { 3 } else { 2 });
+            lgen::gen_field(r, name, depth)
+        };
+        if r.chance(1, 12) {
+            f["meta"] = json!([["SERDE_ARROW:strategy", *r.pick(&["TupleAsStruct", "MapAsStruct", "InconsistentTypes"])]]);
+        }
+        if ctor != "arrow2" || arrowsrc::arrow2_supported(&f) {
+            return f;
+        }
+    }
+    lgen::mk_field(name, true, json!({"t": "Int32"}))
+}
+
+/// one column of `len` visible rows
+fn gen_col(r: &mut Rng, field: Value, len: usize, ctor: &str) -> Value {
+    let src = match ctor {
+        "marrow" => match r.below(6) {
+            0 | 1 => "arrow",
+            2 if arrowsrc::arrow2_supported(&field) => "arrow2",
+            _ => "wire",
+        },
+        "arrow2" => "arrow2",
+        _ => "arrow",
+    };
+    let mut col = json!({"field": field, "src": src});
+    if src == "wire" {
+        let rows = lgen::gen_rows(r, &field, len);
+        let free = r.chance(4, 5);
+        col["view"] = wiregen::encode(r, &field, &rows, free);
+        col["rows"] = Value::Array(rows);
+    } else if r.chance(2, 5) {
+        // a window of a longer array: offsets into the buffers, bit offsets in the bitmaps
+        let pre = r.usize(10);
+        let post = r.usize(4);
+        col["rows"] = Value::Array(lgen::gen_rows(r, &field, pre + len + post));
+        col["slice"] = json!([pre, len]);
+    } else {
+        col["rows"] = Value::Array(lgen::gen_rows(r, &field, len));
+    }
+    col
+}
+
+/// the lengths of the columns: one length, or (malformed, ≈ 9 %) unequal ones — also a zero-length array BEFORE a longer one
+fn gen_lens(r: &mut Rng, ncols: usize, len: usize, allow_bad: bool) -> Vec<usize> {
+    let mut lens = vec![len; ncols];
+    if !allow_bad || ncols < 2 || !r.chance(1, 11) {
+        return lens;
+    }
+    let other = len.max(1) + r.usize(3);
+    match r.below(6) {
+        0 => {
+            // empty first, longer later
+            lens = vec![other; ncols];
+            lens[0] = 0;
+        }
+        1 => {
+            // empty in the middle / at the end
+            lens = vec![other; ncols];
+            let k = 1 + r.usize(ncols - 1);
+            lens[k] = 0;
+        }
+        2 => {
+            // all empty but the last
+            lens = vec![0; ncols];
+            lens[ncols - 1] = other;
+        }
+        _ => {
+            let k = r.usize(ncols);
+            lens[k] = if r.bool() { len + 1 } else { len.saturating_sub(1) };
+            if lens[k] == len {
+                lens[k] = len + 2;
+            }
+        }
+    }
+    lens
+}
+
+fn gen_case(r: &mut Rng, id: String, ctor: &str, ncols: usize, lens: Option<Vec<usize>>, nfields_delta: i64, thorough: bool, leafs: &[Value]) -> Value {
+    let sub = r.0;
+    let len = match r.below(8) {
+        0 => 0,
+        1 => 1,
+        2 => 8,
+        3 => 9,
+        _ => r.usize(14),
+    };
+    let lens = lens.unwrap_or_else(|| gen_lens(r, ncols, len, ctor != "record_batch"));
+    let len = lens.first().copied().unwrap_or(0);
+    let fields: Vec<Value> = (0..ncols).map(|j| gen_field(r, &format!("c{j}"), ctor, leafs, thorough)).collect();
+    let cols: Vec<Value> = fields.iter().zip(&lens).map(|(f, l)| gen_col(r, f.clone(), *l, ctor)).collect();
+    let nfields = (ncols as i64 + nfields_delta).max(0) as usize;
+    let pool = target_pool(r, &fields);
+    let nops = if thorough { 5 + r.usize(50) } else { 5 + r.usize(25) };
+    let mut ops = gen_ops(r, len, nops, &pool);
+    gen_api_ops(&mut Rng::new(sub ^ 0xA91_C07E), &mut ops, &pool);
+    json!({"id": id, "seed": sub, "via": ctor, "cols": cols, "nfields": nfields, "ops": ops})
+}
+
+const CTORS: [&str; 10] = ["marrow", "marrow", "marrow", "marrow", "marrow", "arrow", "arrow", "record_batch", "arrow2", "marrow"];
+
 pub fn gen(ctx: &Ctx) -> Vec<Value> {
+    crate::dynde::self_check_or_panic();
     let mut rng = Rng::new(ctx.seed);
-    let n = if ctx.thorough() { 20000 } else { 1500 };
+    let n = if ctx.thorough() { 20000 } else { 1800 };
+    let leafs = lgen::all_leaf_types();
     let mut out = Vec::new();
-    for c in 0..n {
+    let mut c = 0usize;
+    // the constructor grid: unequal lengths (a zero-length array before a longer one, after it, in the middle), count
+    // mismatches in both directions, zero columns — through every constructor that can be handed such arguments
+    let grid_lens: [&[usize]; 9] = [&[0, 3], &[3, 0], &[3, 0, 3], &[0, 0, 2], &[0, 3, 3], &[2, 3], &[3, 3, 4], &[0, 0], &[]];
+    for ctor in ["marrow", "arrow", "arrow2"] {
+        for lens in grid_lens {
+            for delta in [0i64, 1, -1] {
+                if delta != 0 && lens.len() > 2 {
+                    continue;
+                }
+                let mut r = rng.fork();
+                out.push(gen_case(&mut r, format!("access-{c:06}"), ctor, lens.len(), Some(lens.to_vec()), delta, ctx.thorough(), &leafs));
+                c += 1;
+            }
+        }
+    }
+    for ncols in [0usize, 1, 2] {
         let mut r = rng.fork();
-        let sub = r.0;
-        let ncols = 1 + r.usize(3);
-        let len = match r.below(8) {
-            0 => 0,
-            1 => 1,
-            2 => 8,
-            3 => 9,
-            _ => r.usize(20),
+        out.push(gen_case(&mut r, format!("access-{c:06}"), "record_batch", ncols, None, 0, ctx.thorough(), &leafs));
+        c += 1;
+    }
+    while c < n {
+        let mut r = rng.fork();
+        let ctor = CTORS[c % CTORS.len()];
+        let ncols = if r.chance(1, 40) { 0 } else { 1 + r.usize(3) };
+        // malformed stream: field/array count mismatch (≈ 8 %)
+        let delta = if ctor == "record_batch" {
+            0
+        } else {
+            match r.below(25) {
+                0 => 1,
+                1 => -1,
+                _ => 0,
+            }
         };
-        let mut cols = Vec::new();
-        for i in 0..ncols {
-            // malformed stream: one column of another length (≈6 %)
-            let l = if r.chance(1, 16) { if r.bool() { len + 1 } else { len.saturating_sub(1) } } else { len };
-            cols.push(gen_col(&mut r, i, l));
-        }
-        // malformed stream: field/array count mismatch (≈8 %), also with zero arrays
-        let nfields = match r.below(25) {
-            0 => ncols + 1,
-            1 => ncols - 1,
-            _ => ncols,
-        };
-        if r.chance(1, 40) {
-            cols.clear();
-        }
-        let nops = if ctx.thorough() { 5 + r.usize(60) } else { 5 + r.usize(30) };
-        let mut ops = gen_ops(&mut r, len, nops);
-        gen_api_ops(&mut Rng::new(sub ^ 0xA91_C07E), &mut ops);
-        out.push(json!({"id": format!("access-{c:06}"), "seed": sub, "cols": cols, "nfields": nfields, "ops": ops}));
+        out.push(gen_case(&mut r, format!("access-{c:06}"), ctor, ncols, None, delta, ctx.thorough(), &leafs));
+        c += 1;
     }
     out
 }
 
-fn build_array(col: &Value) -> (Field, Array, usize) {
-    let name = col["name"].as_str().unwrap().to_string();
-    let ty = col["ty"].as_str().unwrap();
-    let nullable = col["nullable"].as_bool().unwrap();
-    let values = col["values"].as_array().unwrap();
-    let validity = if nullable {
-        Some(pack_bits(&values.iter().map(|v| !v.is_null()).collect::<Vec<_>>()))
-    } else {
-        None
-    };
-    let (dt, arr) = match ty {
-        "Int32" => (
-            DataType::Int32,
-            Array::Int32(PrimitiveArray { validity, values: values.iter().map(|v| v.as_i64().unwrap_or(7) as i32).collect() }),
-        ),
-        "Int64" => (
-            DataType::Int64,
-            Array::Int64(PrimitiveArray { validity, values: values.iter().map(|v| v.as_i64().unwrap_or(7)).collect() }),
-        ),
-        "Utf8" => {
-            let mut offsets = vec![0i32];
-            let mut data = Vec::new();
-            for v in values {
-                data.extend_from_slice(v.as_str().unwrap_or("hidden").as_bytes());
-                offsets.push(data.len() as i32);
-            }
-            (DataType::Utf8, Array::Utf8(BytesArray { validity, offsets, data }))
-        }
-        _ => (
-            DataType::Boolean,
-            Array::Boolean(BooleanArray {
-                len: values.len(),
-                validity,
-                values: pack_bits(&values.iter().map(|v| v.as_bool().unwrap_or(true)).collect::<Vec<_>>()),
-            }),
-        ),
-    };
-    (Field { name, data_type: dt, nullable, metadata: Default::default() }, arr, values.len())
+// ------------------------------------------------------------------------------------------------ exec
+
+enum Col {
+    Wire(Owned),
+    Arrow(arrow_array::ArrayRef),
+    Arrow2(Box<dyn arrow2::array::Array>),
 }
 
-/// collects the records a `serde::Deserializer` presents as a sequence (through a newtype wrapper as well)
+fn build_col(col: &Value) -> Result<Col, String> {
+    let field = &col["field"];
+    let rows = col["rows"].as_array().ok_or("rows")?;
+    let window = col.get("slice").and_then(|s| s.as_array()).map(|s| (s[0].as_u64().unwrap() as usize, s[1].as_u64().unwrap() as usize));
+    match col["src"].as_str().unwrap_or("") {
+        "wire" => Ok(Col::Wire(Owned::from_json(&col["view"]))),
+        "arrow" => {
+            let arr = arrowsrc::build_arrow(field, rows)?;
+            Ok(Col::Arrow(match window {
+                Some((o, l)) => arr.slice(o, l),
+                None => arr,
+            }))
+        }
+        "arrow2" => {
+            let arr = arrowsrc::build_arrow2(field, rows)?;
+            Ok(Col::Arrow2(match window {
+                Some((o, l)) => arr.sliced(o, l),
+                None => arr,
+            }))
+        }
+        other => Err(format!("unknown column source {other}")),
+    }
+}
+
+/// collects the records a `serde::Deserializer` presents as a sequence (through a newtype wrapper as well), every record
+/// read through `deserialize_any`
 struct Records;
 
 impl<'de> serde::de::Visitor<'de> for Records {
@@ -206,8 +352,9 @@ impl<'de> serde::de::Visitor<'de> for Records {
         write!(f, "a sequence of records")
     }
     fn visit_seq<A: serde::de::SeqAccess<'de>>(self, mut seq: A) -> Result<Vec<Value>, A::Error> {
+        let any = json!("any");
         let mut out = Vec::new();
-        while let Some(v) = seq.next_element::<Value>()? {
+        while let Some(v) = seq.next_element_seed(Target(&any))? {
             out.push(v);
         }
         Ok(out)
@@ -218,18 +365,18 @@ impl<'de> serde::de::Visitor<'de> for Records {
 }
 
 /// the `Deserializer` itself through one method of `serde::Deserializer`:
-/// `{"items": [..]}` | `{"unit": true}` (ignored) | `{"b": false}` (a method that must refuse returned a value)
+/// `{"seq": [..]}` | `"unit"` (ignored) | `"accepted"` (a method that must refuse returned a value)
 fn top_level(d: serde_arrow::Deserializer<'_>, how: &str) -> Result<Value, serde_arrow::Error> {
     use serde::Deserializer as _;
-    let items = |r: Result<Vec<Value>, serde_arrow::Error>| r.map(|v| json!({ "items": v }));
-    let refused = |r: Result<Vec<Value>, serde_arrow::Error>| r.map(|_| json!({"b": false}));
+    let items = |r: Result<Vec<Value>, serde_arrow::Error>| r.map(|v| json!({ "seq": v }));
+    let refused = |r: Result<Vec<Value>, serde_arrow::Error>| r.map(|_| json!("accepted"));
     match how {
         "seq" => items(d.deserialize_seq(Records)),
         "tuple" => items(d.deserialize_tuple(2, Records)),
         "tuple_struct" => items(d.deserialize_tuple_struct("T", 2, Records)),
         "any" => items(d.deserialize_any(Records)),
         "newtype" => items(d.deserialize_newtype_struct("N", Records)),
-        "ignored" => serde::de::IgnoredAny::deserialize(d).map(|_| json!({"unit": true})),
+        "ignored" => serde::de::IgnoredAny::deserialize(d).map(|_| json!("unit")),
         "bool" => refused(d.deserialize_bool(Records)),
         "i64" => refused(d.deserialize_i64(Records)),
         "u8" => refused(d.deserialize_u8(Records)),
@@ -259,171 +406,193 @@ fn top_level(d: serde_arrow::Deserializer<'_>, how: &str) -> Result<Value, serde
     }
 }
 
-pub fn exec(input: &Value) -> Value {
-    let cols = input["cols"].as_array().unwrap();
-    let nfields = input["nfields"].as_u64().unwrap() as usize;
-    let built: Vec<(Field, Array, usize)> = cols.iter().map(build_array).collect();
-    let mut fields: Vec<Field> = built.iter().map(|b| b.0.clone()).collect();
-    while fields.len() < nfields {
-        fields.push(Field { name: format!("x{}", fields.len()), data_type: DataType::Int32, nullable: false, metadata: Default::default() });
-    }
-    fields.truncate(nfields);
-    let views: Vec<marrow::view::View> = built.iter().map(|b| b.1.as_view()).collect();
-    let view_lens: Vec<usize> = built.iter().map(|b| b.2).collect();
+type Item<'a, 'de> = serde_arrow::deserializer::DeserializerItem<'a, 'de>;
 
-    // the generator's own rows: the oracle for "item i"
-    let min_len = view_lens.iter().copied().min().unwrap_or(0);
-    let mut rows = Vec::new();
-    for i in 0..min_len {
-        let mut m = Map::new();
-        for c in cols.iter() {
-            m.insert(c["name"].as_str().unwrap().to_string(), c["values"][i].clone());
-        }
-        rows.push(Value::Object(m));
-    }
+fn read_item(item: Item<'_, '_>, ty: &Value) -> Value {
+    outcome::run(|| Target(ty).deserialize(item))
+}
 
-    let mut impl_outs: Vec<Value> = Vec::new();
-    let ctor;
-    {
-        let made = std::panic::catch_unwind(std::panic::AssertUnwindSafe(|| serde_arrow::Deserializer::from_marrow(&fields, &views)));
-        match made {
-            Err(_) => ctor = json!({"panic": "Deserializer::from_marrow"}),
-            Ok(Err(e)) => ctor = json!({"err": outcome::parse_error(&e.to_string())}),
-            Ok(Ok(de)) => {
-                ctor = json!({"ok": de.len()});
-                let read_item = |item: serde_arrow::deserializer::DeserializerItem| -> Value {
-                    let r = outcome::run(|| Value::deserialize(item));
-                    match r.get("ok") {
-                        Some(v) => v.clone(),
-                        None => r,
-                    }
-                };
-                let mut iters: Vec<serde_arrow::deserializer::DeserializerIterator> = Vec::new();
-                for op in input["ops"].as_array().unwrap() {
-                    // every operation runs under catch_unwind: an unwinding `size_hint` / `next` / `nth` is an output
-                    // of the history (and ends it), not an abort of the harness process
-                    let res = std::panic::catch_unwind(std::panic::AssertUnwindSafe(|| match op["op"].as_str().unwrap() {
-                        "len" => json!({"n": de.len()}),
-                        "is_empty" => json!({"b": de.is_empty()}),
-                        "get" => {
-                            let i = op["i"].as_u64().unwrap() as usize;
-                            match de.get(i) {
-                                None => json!({"item": null}),
-                                Some(item) => json!({"item": read_item(item)}),
-                            }
-                        }
-                        "iter_new" => {
-                            // alternate between the two public ways of making an iterator
-                            if iters.len() % 2 == 0 {
-                                iters.push(de.iter());
-                            } else {
-                                iters.push((&de).into_iter());
-                            }
-                            json!({"unit": true})
-                        }
-                        "iter_next" => {
-                            let k = op["k"].as_u64().unwrap() as usize;
-                            match iters.get_mut(k) {
-                                None => json!({"no_such_iter": true}),
-                                Some(it) => match it.next() {
-                                    None => json!({"item": null}),
-                                    Some(item) => json!({"item": read_item(item)}),
-                                },
-                            }
-                        }
-                        "iter_nth" => {
-                            let k = op["k"].as_u64().unwrap() as usize;
-                            let n = op["n"].as_u64().unwrap() as usize;
-                            match iters.get_mut(k) {
-                                None => json!({"no_such_iter": true}),
-                                Some(it) => match it.nth(n) {
-                                    None => json!({"item": null}),
-                                    Some(item) => json!({"item": read_item(item)}),
-                                },
-                            }
-                        }
-                        "iter_count" => {
-                            let k = op["k"].as_u64().unwrap() as usize;
-                            match iters.get_mut(k) {
-                                None => json!({"no_such_iter": true}),
-                                Some(it) => {
-                                    // BY VALUE (`by_ref()` would go through `impl Iterator for &mut I`, which only forwards
-                                    // next / nth / size_hint: an override of `count` would never run); the slot is refilled
-                                    // with an iterator in the state the consumed one would be in: at the end
-                                    let taken = std::mem::replace(it, de.iter());
-                                    let n = taken.count();
-                                    while it.next().is_some() {}
-                                    json!({"n": n})
-                                }
-                            }
-                        }
-                        "iter_hint" => {
-                            let k = op["k"].as_u64().unwrap() as usize;
-                            match iters.get(k) {
-                                None => json!({"no_such_iter": true}),
-                                Some(it) => {
-                                    let (lo, hi) = it.size_hint();
-                                    json!({"hint": [lo, hi]})
-                                }
-                            }
-                        }
-                        "iter_last" => {
-                            let k = op["k"].as_u64().unwrap() as usize;
-                            match iters.get_mut(k) {
-                                None => json!({"no_such_iter": true}),
-                                Some(it) => {
-                                    let taken = std::mem::replace(it, de.iter()); // by value, see iter_count
-                                    let last = taken.last();
-                                    while it.next().is_some() {}
-                                    match last {
-                                        None => json!({"item": null}),
-                                        Some(item) => json!({"item": read_item(item)}),
-                                    }
-                                }
-                            }
-                        }
-                        "collect_rev" => {
-                            let items: Vec<serde_arrow::deserializer::DeserializerItem> = de.iter().collect();
-                            json!({"items": items.into_iter().rev().map(&read_item).collect::<Vec<Value>>()})
-                        }
-                        "top" => {
-                            let how = op["how"].as_str().unwrap();
-                            let r = outcome::run(|| top_level(serde_arrow::Deserializer::from_marrow(&fields, &views)?, how));
-                            match r.get("ok") {
-                                Some(v) => v.clone(),
-                                None if r.get("err").is_some() => json!({"b": true}),
-                                None => r,
-                            }
-                        }
-                        "bulk" => {
-                            let r = outcome::run(|| {
-                                let d = serde_arrow::Deserializer::from_marrow(&fields, &views)?;
-                                Vec::<Value>::deserialize(d).map(Value::Array)
-                            });
-                            match r.get("ok") {
-                                Some(v) => json!({"items": v}),
-                                None => r,
-                            }
-                        }
-                        other => json!({"bad_op": other}),
-                    }));
-                    match res {
-                        Ok(out) => impl_outs.push(out),
-                        Err(e) => {
-                            let msg = e.downcast_ref::<String>().cloned().or_else(|| e.downcast_ref::<&str>().map(|s| s.to_string())).unwrap_or_default();
-                            impl_outs.push(json!({"panic": msg}));
-                            break;
-                        }
-                    }
+fn item_out(item: Option<Item<'_, '_>>, ty: &Value) -> Value {
+    match item {
+        None => json!({ "item": null }),
+        Some(item) => json!({ "item": read_item(item, ty) }),
+    }
+}
+
+/// the history on a constructed deserializer; `make` builds another one the same way (bulk reads consume theirs)
+fn run_ops<'de>(de: &serde_arrow::Deserializer<'de>, make: &dyn Fn() -> Result<serde_arrow::Deserializer<'de>, serde_arrow::Error>, ops: &[Value]) -> Vec<Value> {
+    let mut outs: Vec<Value> = Vec::new();
+    let mut iters: Vec<serde_arrow::deserializer::DeserializerIterator> = Vec::new();
+    for op in ops {
+        let ty = &op["ty"];
+        // every operation runs under catch_unwind: an unwinding `size_hint` / `next` / `nth` is an output of the history
+        // (and ends it), not an abort of the harness process
+        let res = catch_unwind(AssertUnwindSafe(|| match op["op"].as_str().unwrap() {
+            "len" => json!({"n": de.len()}),
+            "is_empty" => json!({"b": de.is_empty()}),
+            "get" => item_out(de.get(op["i"].as_u64().unwrap() as usize), ty),
+            "iter_new" => {
+                // alternate between the two public ways of making an iterator
+                if iters.len() % 2 == 0 {
+                    iters.push(de.iter());
+                } else {
+                    iters.push(de.into_iter());
                 }
+                json!({"unit": true})
+            }
+            "iter_next" => match iters.get_mut(op["k"].as_u64().unwrap() as usize) {
+                None => json!({"no_such_iter": true}),
+                Some(it) => item_out(it.next(), ty),
+            },
+            "iter_nth" => match iters.get_mut(op["k"].as_u64().unwrap() as usize) {
+                None => json!({"no_such_iter": true}),
+                Some(it) => item_out(it.nth(op["n"].as_u64().unwrap() as usize), ty),
+            },
+            "iter_count" => match iters.get_mut(op["k"].as_u64().unwrap() as usize) {
+                None => json!({"no_such_iter": true}),
+                Some(it) => {
+                    // BY VALUE (`by_ref()` would go through `impl Iterator for &mut I`, which only forwards next / nth /
+                    // size_hint: an override of `count` would never run); the slot is refilled with an iterator in the
+                    // state the consumed one would be in: at the end
+                    let taken = std::mem::replace(it, de.iter());
+                    let n = taken.count();
+                    while it.next().is_some() {}
+                    json!({ "n": n })
+                }
+            },
+            "iter_hint" => match iters.get(op["k"].as_u64().unwrap() as usize) {
+                None => json!({"no_such_iter": true}),
+                Some(it) => {
+                    let (lo, hi) = it.size_hint();
+                    json!({"hint": [lo, hi]})
+                }
+            },
+            "iter_last" => match iters.get_mut(op["k"].as_u64().unwrap() as usize) {
+                None => json!({"no_such_iter": true}),
+                Some(it) => {
+                    let taken = std::mem::replace(it, de.iter()); // by value, see iter_count
+                    let last = taken.last();
+                    while it.next().is_some() {}
+                    item_out(last, ty)
+                }
+            },
+            "collect_rev" => {
+                let items: Vec<Item> = de.iter().collect();
+                json!({"each": items.into_iter().rev().map(|it| read_item(it, ty)).collect::<Vec<Value>>()})
+            }
+            "top" => {
+                let how = op["how"].as_str().unwrap();
+                json!({"items": outcome::run(|| top_level(make()?, how))})
+            }
+            "bulk" => {
+                let seq = json!({ "seq": ty });
+                json!({"items": outcome::run(|| Target(&seq).deserialize(make()?))})
+            }
+            other => json!({ "bad_op": other }),
+        }));
+        match res {
+            Ok(out) => outs.push(out),
+            Err(e) => {
+                let msg = e.downcast_ref::<String>().cloned().or_else(|| e.downcast_ref::<&str>().map(|s| s.to_string())).unwrap_or_default();
+                outs.push(json!({ "panic": msg }));
+                break;
             }
         }
     }
+    outs
+}
+
+fn ctor_and_ops<'de>(make: &dyn Fn() -> Result<serde_arrow::Deserializer<'de>, serde_arrow::Error>, ops: &[Value]) -> (Value, Vec<Value>) {
+    match catch_unwind(AssertUnwindSafe(make)) {
+        Err(_) => (json!({"panic": outcome::take_panic()}), Vec::new()),
+        Ok(Err(e)) => (json!({"err": outcome::parse_error(&e.to_string())}), Vec::new()),
+        Ok(Ok(de)) => (json!({"ok": de.len()}), run_ops(&de, make, ops)),
+    }
+}
+
+fn exec_inner(input: &Value) -> Result<(Vec<Value>, Value, Vec<Value>), String> {
+    let cols = input["cols"].as_array().ok_or("cols")?;
+    let nfields = input["nfields"].as_u64().ok_or("nfields")? as usize;
+    let ctor = input["via"].as_str().unwrap_or("marrow");
+    let ops = input["ops"].as_array().ok_or("ops")?;
+    let built: Vec<Col> = cols.iter().map(build_col).collect::<Result<_, _>>()?;
+    let mut views: Vec<View> = Vec::new();
+    for b in &built {
+        views.push(match b {
+            Col::Wire(o) => o.view(),
+            Col::Arrow(a) => View::try_from(a.as_ref()).map_err(|e| format!("marrow conversion: {e}"))?,
+            Col::Arrow2(a) => View::try_from(a.as_ref()).map_err(|e| format!("marrow conversion: {e}"))?,
+        });
+    }
+    let view_dumps: Vec<Value> = views.iter().map(view_to_json).collect();
+    let (ctor_out, outs) = match ctor {
+        "marrow" => {
+            let mut fields: Vec<marrow::datatypes::Field> = cols.iter().map(|c| field_from_json(&c["field"])).collect();
+            while fields.len() < nfields {
+                fields.push(marrow::datatypes::Field { name: format!("x{}", fields.len()), data_type: marrow::datatypes::DataType::Int32, nullable: false, metadata: Default::default() });
+            }
+            fields.truncate(nfields);
+            ctor_and_ops(&|| serde_arrow::Deserializer::from_marrow(&fields, &views), ops)
+        }
+        "arrow" | "record_batch" => {
+            let arrays: Vec<arrow_array::ArrayRef> = built
+                .iter()
+                .map(|b| match b {
+                    Col::Arrow(a) => Ok(a.clone()),
+                    _ => Err("an arrow constructor needs arrow columns".to_string()),
+                })
+                .collect::<Result<_, _>>()?;
+            let mut fields: Vec<arrow_schema::FieldRef> = cols.iter().map(|c| Arc::new(arrowsrc::arrow_field(&c["field"]))).collect();
+            while fields.len() < nfields {
+                fields.push(Arc::new(arrow_schema::Field::new(format!("x{}", fields.len()), arrow_schema::DataType::Int32, false)));
+            }
+            fields.truncate(nfields);
+            if ctor == "arrow" {
+                ctor_and_ops(&|| serde_arrow::Deserializer::from_arrow(&fields, &arrays), ops)
+            } else {
+                let rows = arrays.first().map(|a| arrow_array::Array::len(a.as_ref())).unwrap_or(0);
+                let options = arrow_array::RecordBatchOptions::new().with_row_count(Some(rows));
+                let batch = arrow_array::RecordBatch::try_new_with_options(Arc::new(arrow_schema::Schema::new(fields.clone())), arrays.clone(), &options)
+                    .map_err(|e| format!("RecordBatch::try_new: {e}"))?;
+                ctor_and_ops(&|| serde_arrow::Deserializer::from_record_batch(&batch), ops)
+            }
+        }
+        "arrow2" => {
+            let arrays: Vec<Box<dyn arrow2::array::Array>> = built
+                .iter()
+                .map(|b| match b {
+                    Col::Arrow2(a) => Ok(a.clone()),
+                    _ => Err("from_arrow2 needs arrow2 columns".to_string()),
+                })
+                .collect::<Result<_, _>>()?;
+            let mut fields: Vec<arrow2::datatypes::Field> = cols.iter().map(|c| arrowsrc::arrow2_field(&c["field"])).collect::<Result<_, _>>()?;
+            while fields.len() < nfields {
+                fields.push(arrow2::datatypes::Field::new(format!("x{}", fields.len()), arrow2::datatypes::DataType::Int32, false));
+            }
+            fields.truncate(nfields);
+            ctor_and_ops(&|| serde_arrow::Deserializer::from_arrow2(&fields, &arrays), ops)
+        }
+        other => return Err(format!("unknown constructor {other}")),
+    };
+    Ok((view_dumps, ctor_out, outs))
+}
+
+pub fn exec(input: &Value) -> Value {
     let mut case = input.clone();
+    let res = match catch_unwind(AssertUnwindSafe(|| exec_inner(input))) {
+        Ok(r) => r,
+        Err(_) => Err(format!("panic while building the columns: {}", outcome::take_panic())),
+    };
     let obj = case.as_object_mut().unwrap();
-    obj.insert("view_lens".into(), json!(view_lens));
-    obj.insert("rows".into(), Value::Array(rows));
-    obj.insert("ctor".into(), ctor);
-    obj.insert("impl".into(), Value::Array(impl_outs));
+    match res {
+        Err(e) => {
+            obj.insert("skip".into(), json!(e));
+        }
+        Ok((views, ctor, outs)) => {
+            obj.insert("views".into(), Value::Array(views));
+            obj.insert("ctor".into(), ctor);
+            obj.insert("impl".into(), Value::Array(outs));
+        }
+    }
     case
 }
